@@ -59,6 +59,21 @@ func genTreeName(r *RNG, used map[string]bool, allowDot bool) string {
 	}
 }
 
+func countBucket(n int) string {
+	switch {
+	case n == 0:
+		return "0"
+	case n <= 3:
+		return "1-3"
+	case n <= 10:
+		return "4-10"
+	case n <= 30:
+		return "11-30"
+	default:
+		return ">30"
+	}
+}
+
 func isASCII(s string) bool {
 	for i := 0; i < len(s); i++ {
 		if s[i] >= 0x80 {
@@ -89,7 +104,12 @@ func c10FileSize(r *RNG, max int) int {
 func genTree(r *RNG, name string, depth, maxFan, maxSize int, forks bool, budget *int) *tnode {
 	t := &tnode{name: name, isDir: true}
 	fan := r.Intn(maxFan + 1)
-	if depth == 0 && fan == 0 && r.Chance(80) {
+	if depth == 0 {
+		fan = 2 + r.Intn(maxFan-1)
+		if r.Chance(5) {
+			fan = r.Intn(2) // nearly empty and empty folders
+		}
+	} else if depth == 1 && r.Chance(60) {
 		fan = 1 + r.Intn(maxFan)
 	}
 	used := map[string]bool{}
@@ -215,6 +235,7 @@ type fdlItem struct {
 }
 
 type fdlClient struct {
+	force   map[string]string // scripted actions by item path ("s", "n", "r<k>")
 	r       *RNG
 	files   map[string]*diskFile
 	mode    int // 0 all send, 1 mixed, 2 resume-heavy, 3 all next
@@ -229,6 +250,22 @@ func (cl *fdlClient) chooseAction(it *fdlItem) []byte {
 	r := cl.r
 	f := cl.files[it.key]
 	kind := 1
+	if a, ok := cl.force[it.key]; ok {
+		switch {
+		case a == "n":
+			it.act = "n"
+			return []byte{0, 3}
+		case strings.HasPrefix(a, "r"):
+			k := 0
+			fmt.Sscanf(a[1:], "%d", &k)
+			it.act, it.k = a, k
+			rd := resumeDataBytes(k)
+			return append(append([]byte{0, 2}, be16(len(rd))...), rd...)
+		default:
+			it.act = "s"
+			return []byte{0, 1}
+		}
+	}
 	switch cl.mode {
 	case 0:
 		kind = 1
@@ -358,6 +395,10 @@ func runC10Download(c *Case) {
 }
 
 func c10DownloadOnce(c *Case, ts *TS, set *transferSet, cc *hotline.ClientConn, id uint32, tree *tnode, pathItems [][]byte, mode int) {
+	c10DownloadForced(c, ts, set, cc, id, tree, pathItems, mode, nil)
+}
+
+func c10DownloadForced(c *Case, ts *TS, set *transferSet, cc *hotline.ClientConn, id uint32, tree *tnode, pathItems [][]byte, mode int, force map[string]string) {
 	r := c.R
 	files, dirs := map[string]*diskFile{}, map[string]bool{}
 	tree.collect("", files, dirs, false)
@@ -392,8 +433,8 @@ func c10DownloadOnce(c *Case, ts *TS, set *transferSet, cc *hotline.ClientConn, 
 	describe()
 	c.Corr("folder-count-and-size", fmt.Sprintf("%d %d", count, binary.BigEndian.Uint32(szB)), c.O.Ask("fcount "+tok), false)
 
-	cl := &fdlClient{r: r, files: files, mode: mode, stopAt: -1}
-	if nVisible > 0 && r.Chance(12) {
+	cl := &fdlClient{r: r, files: files, mode: mode, stopAt: -1, force: force}
+	if force == nil && nVisible > 0 && r.Chance(12) {
 		cl.stopAt = r.Intn(nVisible)
 		cl.stopMid = r.Bool()
 	}
@@ -403,12 +444,18 @@ func c10DownloadOnce(c *Case, ts *TS, set *transferSet, cc *hotline.ClientConn, 
 		viol("transfer-handler-hangs", "the folder download did not finish")
 		return
 	}
-	// what the server wrote after the client's last turn (a client that left: the next header)
+	// what the server wrote after the client's last turn: the next header when the client left; anything
+	// else means the server ended the transfer in the middle of an item
+	aborted := false
 	if tail := conn.Tail(); len(tail) > 0 {
 		comps, isDir, rest, err := parseItemHeader(tail)
-		if err != nil || len(rest) != 0 {
+		switch {
+		case cl.state == 2 && len(cl.items) > 0:
+			cl.items[len(cl.items)-1].body = tail
+			aborted = true
+		case err != nil || len(rest) != 0:
 			cl.proto = append(cl.proto, "bytes after the client's last turn are not one item header")
-		} else {
+		default:
 			cl.items = append(cl.items, &fdlItem{hdr: tail, key: compsKey(comps), isDir: isDir})
 		}
 	}
@@ -419,8 +466,12 @@ func c10DownloadOnce(c *Case, ts *TS, set *transferSet, cc *hotline.ClientConn, 
 	}
 	stopped := cl.stopAt >= 0
 	c.Dist(fmt.Sprintf("folder-download/mode=%d stopped=%v", mode, stopped))
+	c.Dist("folder-download/items=" + countBucket(len(cl.items)))
 
 	// --- the property, directly
+	if aborted && !stopped {
+		viol("folder-download-aborted", fmt.Sprintf("the server ended the folder download inside item %d of %d announced although the client kept answering", len(cl.items), count))
+	}
 	if !stopped {
 		if len(cl.items) != count {
 			viol("item-count-vs-headers", fmt.Sprintf("reply field 220 announces %d items, %d item headers were sent", count, len(cl.items)))
@@ -985,6 +1036,7 @@ func runC10Upload(c *Case) {
 			}
 		}
 		c.Dist(fmt.Sprintf("folder-upload/pre=%d cut=%v", preMode, cutItem >= 0))
+		c.Dist("folder-upload/items=" + countBucket(len(items)))
 		ok, _ := e.uploadSession(folder, items, cutItem, cutAt, expect, "first session")
 		if !ok {
 			continue
@@ -1065,6 +1117,50 @@ func runC10RoundTrip(c *Case) {
 	}
 }
 
+// runC10Regressions replays the witnesses of the three defects repaired in /repo (fef72d3, 6c1e410, 6ca3f0f) on every run.
+func runC10Regressions(c *Case) {
+	r := c.R
+	ts, err := newTS(TSOpt{Direct: true})
+	if err != nil {
+		return
+	}
+	set := &transferSet{ts: ts}
+	defer func() {
+		set.waitAll()
+		ts.Close()
+	}()
+	cc, _ := ts.DirectClient("admin", []byte("admin"), "127.0.0.1:1234")
+	// (1) resume from 15 of 20 bytes; (3) a file with an information fork and no resource fork, followed by another file
+	info := randInfoSpec(r, []byte("f.txt"))
+	info.Comment = []byte("a comment")
+	tree := &tnode{name: "regress", isDir: true, kids: []*tnode{
+		{name: "f.txt", file: &diskFile{Name: "f.txt", ReqName: []byte("f.txt"), Data: genData(r, 20), ModTime: randModTime(r), Info: &info}},
+		{name: "g.txt", file: &diskFile{Name: "g.txt", ReqName: []byte("g.txt"), Data: genData(r, 20), ModTime: randModTime(r)}},
+	}}
+	if writeTree(tree, ts.Root) != nil {
+		return
+	}
+	c10DownloadForced(c, ts, set, cc, 11, tree, nil, 0, map[string]string{"f.txt": "s", "g.txt": "r15"})
+	c10DownloadForced(c, ts, set, cc, 12, tree, nil, 0, map[string]string{"f.txt": "r15", "g.txt": "s"})
+	// (2) a resumed folder-upload item whose transfer fails must not be published
+	e := &c10Env{c: c, ts: ts, set: set, cc: cc, id: 50}
+	data := genData(r, 20)
+	it := &upItemSpec{comps: [][]byte{[]byte("f.txt")}, key: "f.txt", fc: 2, info: randInfoSpec(r, []byte("f.txt")), data: data}
+	it.info.Comment = nil
+	target := filepath.Join(ts.Root, "regress-up")
+	os.MkdirAll(target, 0755)
+	os.WriteFile(filepath.Join(target, "f.txt.incomplete"), data[:5], 0644)
+	hl := 4 + 56 + len(it.info.encode())
+	expect := map[string][]byte{"f.txt": data}
+	e.uploadSession("regress-up", []*upItemSpec{it}, 0, hl+3, expect, "regression: resumed item cut after 3 bytes")
+	if _, err := os.Stat(filepath.Join(target, "f.txt")); err == nil {
+		c.Note("witness", "partial file of 5 bytes, resumed item cut after 3 more bytes")
+		c.Violation("published-before-complete", "a resumed folder-upload item whose transfer failed was published under its final name")
+	}
+	e.uploadSession("regress-up", []*upItemSpec{it}, -1, 0, expect, "regression: second session")
+	c.Nontrivial("regressions")
+}
+
 func init() {
 	props["C10"] = func(x *Ctx) {
 		x.rule = "folder-download: 4 trees per case (depth ≤ 4, fan-out ≤ 5, ≤ 60 entries, empty folders, dot-files and dot-folders with visible entries below them, names chosen to separate per-directory byte order from whole-path order, file sizes 0..100 KiB (thorough 200 KiB), optional .info_/.rsrc_ side files, requested at the root or one level down), each downloaded under 3 action scripts (all send; mixed send/resume/next; resume-heavy or all next; resume offsets 0,1,size-1,size,random; 12% of the runs the client disconnects at an item header or after a file). folder-upload: 4 client trees per case streamed in client order into an empty, partly or largely pre-populated folder (existing folders, complete files with equal or other contents, partial files holding a prefix), 45% cut inside a file item (before the size, inside the header, at header end ±1, mid data, last byte) followed by a second complete session. folder-roundtrip: upload into an empty folder, then download with all-send. non-trivial = a file item whose bytes were transferred (download) / a session that streamed at least one item (upload); distinct = distinct (path, size, action, fork combination) resp. (items, pre-population, cut)"
@@ -1073,6 +1169,7 @@ func init() {
 			"resume of a file with a stored resource fork, and a resource fork without an information fork, are compared with the model as coded (DESIGN §7 C08 'not covered': resume of the resource fork); the size-prefix clause is judged directly only without a stored resource fork or for 'send'",
 			"folder upload item paths are plain names (cleaning of hostile paths is C07's subject)",
 		}
+		x.Add(&Family{Name: "regressions", Quick: 1, Thor: 1, Run: runC10Regressions})
 		x.Add(&Family{Name: "folder-download", Quick: 48, Thor: 640, Run: runC10Download})
 		x.Add(&Family{Name: "folder-upload", Quick: 48, Thor: 640, Run: runC10Upload})
 		x.Add(&Family{Name: "folder-roundtrip", Quick: 32, Thor: 320, Run: runC10RoundTrip})
